@@ -2131,6 +2131,17 @@ func (s *swamp) SaveFunction(t treasure.Treasure, guardID guard.ID) treasure.Tre
 		// treasure may still be sitting in the write buffer. We must remove it first,
 		// otherwise beacon.Add silently drops the new treasure (key already exists)
 		// and only the OpDelete gets flushed — causing data loss after swamp reopen.
+		//
+		// That pending delete also tells us that an older version of this key is
+		// still in the file. The new record takes over its file pointer, so that it
+		// counts as persisted: if it is deleted again before the next flush, the
+		// delete has to reach the file too - otherwise the old version, whose own
+		// delete we are dropping here, comes back after the next reload.
+		if pending := s.treasuresWaitingForWriter.Get(t.GetKey()); pending != nil {
+			if fileName := pending.GetFileName(); fileName != nil && t.GetFileName() == nil {
+				t.BodySetFileName(guardID, *fileName)
+			}
+		}
 		s.treasuresWaitingForWriter.Delete(t.GetKey())
 
 		// add the treasure to the treasuresWaitingForWriter index
